@@ -13,7 +13,7 @@ Development aid; not registered in MANIFEST.json."""
 import json, os, re, shutil, subprocess, sys, time
 
 ALWAYS_FAIL = {"subcommand::torrent::verify::tests::output_color", "subcommand::torrent::verify::tests::output_multiple"}
-ROOT = "/tmp/confirm"
+ROOT = os.environ.get("CONFIRM_ROOT", "/tmp/confirm")
 WT = ROOT + "/repo"
 TARGET = ROOT + "/target"
 CACHE = ROOT + "/cache"
@@ -50,6 +50,7 @@ def main():
     sh(["git", "checkout", "--detach", head], cwd=WT); sh("git checkout -- . && git clean -fdq", cwd=WT)
     rec["repo_head"] = head
     ok = True
+    applied_diff = ""
     # 1 pristine
     rc, out = sh(["cargo", "build", "--offline", "--bin", "imdl"], cwd=WT)
     assert rc == 0, out[-2000:]
@@ -60,6 +61,14 @@ def main():
         ok = False
     # 2 patched
     rc, out = sh(["git", "apply", os.path.join(src, "patch.diff")], cwd=WT)
+    if rc != 0:   # /repo moved on since the change was written (fix commits): retry three-way, then with fuzz
+        sh("git checkout -- . && git clean -fdq", cwd=WT)
+        rc, out = sh(["git", "apply", "-3", os.path.join(src, "patch.diff")], cwd=WT)
+        if rc != 0 or "with conflicts" in out:
+            sh("git checkout -- . && git clean -fdq", cwd=WT)
+            rc, out = sh("patch -p1 --fuzz=3 --no-backup-if-mismatch < %s" % os.path.join(src, "patch.diff"), cwd=WT)
+        sh("git reset -q", cwd=WT)
+        rec["rebased_patch"] = rc == 0
     if rc != 0:
         rec["steps"].append({"apply": out}); ok = False
     else:
@@ -69,6 +78,7 @@ def main():
             ok = False
         else:
             patched = ROOT + "/imdl.patched"; shutil.copy(TARGET + "/debug/imdl", patched)
+            rc_d, applied_diff = sh(["git", "diff"], cwd=WT)
             rc, out = run_demo(src, patched)
             rec["steps"].append({"demo_with_change_rc": rc, "tail": out[-900:]})
             if rc == 0 or rc is None:
@@ -104,6 +114,9 @@ def main():
                 meta = json.load(open(mp))
             except Exception:
                 meta = {"raw": open(mp).read()}
+        if rec.get("rebased_patch"):
+            shutil.copy(os.path.join(src, "patch.diff"), os.path.join(dest, "patch.original.diff"))
+            open(os.path.join(dest, "patch.diff"), "w").write(applied_diff)
         meta["confirmation"] = rec
         meta["caught_by"] = sorted(c for c, v in rec.get("checks", {}).items() if v["rc"] == 1 and any(l.startswith("VIOLATION") for l in v["lines"]))
         json.dump(meta, open(os.path.join(dest, "meta.json"), "w"), indent=1)
